@@ -660,6 +660,27 @@ def battery(ctx, G, a, b, as_array, cid, internal=True, heavy=True):
             if not same(c.lib[m2], c.lib[m1]) and c.ok[m1] and c.ok[m2]:
                 c.relation(m2, "ne-sparse-twin",
                            {"compiled": c.lib[m1], "sparse": c.lib[m2]})
+    # ---- twins on directed networks (the clustering measures carry no
+    # reference of their own there; the compiled and the sparse variant are
+    # two implementations of one measure)
+    if not und:
+        for m1, m2 in TWINS:
+            if m1 == "cross_transitivity":
+                # (the two variants count triangles of a directed network
+                #  differently and neither documents a directed convention:
+                #  an observation in DESIGN 13, not judged here)
+                continue
+            a2, b2 = c.args(c.a, c.b, as_array)
+            ok1, v1 = ctx.call(TABLE[m1][1], G.net, a2, b2, None)
+            a3, b3 = c.args(c.a, c.b, False)
+            ok2, v2 = ctx.call(TABLE[m2][1], G.net, a3, b3, None)
+            ctx.evals(2)
+            if ok1 and ok2:
+                ctx.count("twin_compared")
+                ctx.count("twin_compared_directed")
+                if not same(v2, v1):
+                    c.relation(m2, "ne-sparse-twin:directed",
+                               {"compiled": v1, "sparse": v2})
     # ---- swap
     if und:
         for name in SYMMETRIC:
@@ -1077,12 +1098,41 @@ def ccn_case(ctx, k):
         u, v = np.asarray(u, float), np.asarray(v, float)
         return u.shape == v.shape and bool(np.allclose(
             u, v, rtol=1e-6, atol=1e-7, equal_nan=True))
-    for m, wrap, gen, want in rows:
+    edited = []
+    for m, wrap, gen, want in rows + [("<again>", None, None, None)]:
+        if m == "<again>":
+            # the caller has meanwhile worked on the arrays it was handed
+            # (rescaled them, masked values): the first rows once more
+            for arr in edited:
+                if arr.flags.writeable and arr.dtype.kind == "f":
+                    arr *= 100.0
+                    arr[~np.isfinite(arr)] = 0.0
+                elif arr.flags.writeable and arr.dtype.kind in "iu":
+                    arr[...] = 1 - arr
+            if edited:
+                ctx.count("ccn_results_edited_by_caller")
+            again = [rw for rw in rows if "path_length" in rw[0]][:8] + \
+                [rw for rw in rows if "adjacency" in rw[0]][:6]
+            # (the similarity accessors hand out the object's own matrix -
+            #  like the attribute it is - and are not re-asked)
+            for m2, wrap2, gen2, want2 in again:
+                okx, vx = ctx.call(wrap2)
+                ctx.evals()
+                e2 = eq_f32 if "link_distance" in m2 else eq_exact
+                if okx and not e2(vx, want2):
+                    ctx.violation(f"CoupledClimateNetwork.{m2}:differs-after-"
+                                  "the-caller-edited-earlier-results",
+                                  {**det, "now": vx, "ref": want2}, cid)
+            break
         eq = eq_f32 if "link_distance" in m else eq_exact
         ok1, v1 = ctx.call(wrap)
         ok2, v2 = ctx.call(gen)
         ctx.evals(2)
         ctx.count("ccn_wrappers_compared")
+        for v_ in (v1 if isinstance(v1, tuple) else (v1,)) if ok1 else ():
+            if isinstance(v_, np.ndarray) and len(edited) < 80 and \
+                    "similarity" not in m:
+                edited.append(v_)
         if not ok2:
             ctx.violation(f"{m}:raises:{type(v2).__name__}:generic-call",
                           {**det, "exc": repr(v2)}, cid)
@@ -1096,6 +1146,27 @@ def ccn_case(ctx, k):
         elif not eq(v2, want):
             ctx.violation(f"CoupledClimateNetwork.{m}:ne-definition",
                           {**det, "wrapper": v1, "ref": want}, cid)
+    # the blocks handed out by the layer accessors are the caller's: working
+    # on them (rescaling, masking) does not change what the network answers
+    for nm in ("path_lengths_1", "path_lengths_2", "cross_path_lengths",
+               "adjacency_1", "cross_layer_adjacency"):
+        f = getattr(net, nm, None)
+        if not callable(f):
+            continue
+        ok1, v1 = ctx.call(f)
+        if not ok1 or not isinstance(v1, np.ndarray) or \
+                not v1.flags.writeable:
+            continue
+        keep = v1.copy()
+        with np.errstate(all="ignore"):
+            v1 *= 3
+            v1 += 1
+        ok2, v2 = ctx.call(f)
+        ctx.evals(2)
+        ctx.count("ccn_blocks_edited_by_caller")
+        if not ok2 or not np.array_equal(np.asarray(v2), keep):
+            ctx.violation(f"CoupledClimateNetwork.{nm}:changed-by-the-"
+                          "caller's-edit-of-an-earlier-result", det, cid)
     if A[:n1, n1:].any() and not A[:n1, n1:].all():
         ctx.nontrivial(("ccn", n1, n2, A.tobytes()))
 
